@@ -103,6 +103,12 @@ def variant_files(v):
         f['build.bfg'] = ("project('p')\n"
                           "executable('prog', ['main.c'] + find_files("
                           "'lib/**/*.c', extra='*.h', exclude='skip*'))\n")
+    elif v == 'findrec2':
+        # recursive without extra= (whose known dist-order difference would
+        # end the validation of a history at its first regeneration)
+        f['build.bfg'] = ("project('p')\n"
+                          "executable('prog', ['main.c'] + find_files("
+                          "'lib/**/*.c'))\n")
     elif v == 'hdrdir':
         f['build.bfg'] = ("project('p')\n"
                           "inc = header_directory('include', include='*.h')\n"
@@ -188,6 +194,11 @@ def apply_edit(p, v, op, n):
         if not os.path.exists(j(lib, 'deep')):
             return None
         shutil.rmtree(j(lib, 'deep'))
+    elif op == 'rename_sub':
+        if not os.path.exists(j(lib, 'deep')) or \
+                os.path.exists(j(lib, 'deeper%d' % n)):
+            return None
+        os.rename(j(lib, 'deep'), j(lib, 'deeper%d' % n))
     elif op == 'edit_script':
         with open(j(S, 'build.bfg'), 'a') as f:
             f.write("command('c%d', cmd=['true'])\n" % n)
@@ -297,9 +308,12 @@ def main(argv):
                 ['add_match', 'remove_match'], ['add_other', 'rename_match'],
                 ['edit_script', 'add_match'], ['add_header', 'add_match'],
                 ['edit_options', 'add_other', 'add_match'],
-                ['edit_toolchain', 'add_match'], ['mkdir_gen', 'add_gen']]
-    variants = ['find', 'findrec', 'hdrdir', 'sub', 'pkg', 'missingbase',
-                'toolchain']
+                ['edit_toolchain', 'add_match'], ['mkdir_gen', 'add_gen'],
+                # a searched directory disappears / is renamed
+                ['mkdir_sub', 'add_in_sub', 'rmdir_sub', 'add_match'],
+                ['mkdir_sub', 'add_in_sub', 'rename_sub', 'add_in_sub']]
+    variants = ['find', 'findrec', 'findrec2', 'hdrdir', 'sub', 'pkg',
+                'missingbase', 'toolchain']
     for v in variants:
         for b in (('make', 'ninja') if not ck.quick else ('make',)):
             for d in directed:
